@@ -69,7 +69,7 @@ MulOK(ev) ==
       B == IF ev.p.bt = 1 THEN Transpose(Pre(O(ev, 3))) ELSE Pre(O(ev, 3))
       out == OutOf(ev, 1)
       prod == Mul(A, B)
-      want == IF ev.p.acc = 1 THEN Add(Pre(O(ev, 1)), prod) ELSE prod
+      want == IF ev.p.acc = 1 /\ O(ev, 1).pre > 0 THEN Add(Pre(O(ev, 1)), prod) ELSE prod      \* accumulate into NULL = into the zero matrix
   IN Eq(Post(out), want)
 
 \* a 64-bit value logged as a "words" line: set of bit positions
@@ -152,7 +152,7 @@ AlgOK(ev) ==
     [] op \in {"inv_m4ri", "invert_naive"} -> InverseOK(Pre(O(ev, 2)), Post(OutOf(ev, 1)))
     [] op \in {"trtri_upper", "trtri_upper_russian"} -> TrtriOK(Pre(O(ev, 1)), Post(O(ev, 1)))
     [] op \in {"solve_left", "_solve_left", "pluq_solve_left", "_pluq_solve_left"} ->
-         SolveOK(Pre(O(ev, 3)), Pre(O(ev, 2)), Post(O(ev, 2)), ev.ret)
+         SolveOKc(Pre(O(ev, 3)), Pre(O(ev, 2)), Post(O(ev, 2)), ev.ret, IF "check" \in DOMAIN p THEN p.check ELSE 1)
     [] op = "kernel_left_pluq" -> KernelOK(Pre(O(ev, 2)), HasR(ev), Post(ev.o[Len(ev.o)]))
 
 \* word-level kernels and the code book (C19): the dumped data is judged against spec/alg
@@ -274,7 +274,7 @@ ModelDrift(ev) ==
       [] op \in {"ple", "_ple"} -> IF SamePLE(PRn!Ple(A), ev) THEN {} ELSE {"drift_ple_recursive"}
       [] op \in {"pluq", "_pluq"} -> IF SamePLE(PRn!Pluq(A), ev) THEN {} ELSE {"drift_ple_recursive"}
       [] op \in {"solve_left", "_solve_left"} ->
-           IF ev.ret # 0 THEN {}
+           IF ev.ret # 0 \/ p.check = 0 THEN {}
            ELSE LET F == FactOf(PRn!Pluq(A))  S == SV!PluqSolveLeft(F, A.m, A.n, Pre(O(ev, 2))) IN
                 IF S.ret = 0 /\ Eq(S.B, Post(O(ev, 2))) /\ Eq(F.LU, Post(O(ev, 1))) THEN {} ELSE {"drift_solve"}
       [] op = "kernel_left_pluq" ->
